@@ -1,0 +1,8 @@
+//go:build !verif
+
+package lexer
+
+// verifLexState is empty unless built with the verif tag.
+type verifLexState struct{}
+
+func (l *Lexer) verifTick() {}
